@@ -592,4 +592,603 @@ theorem goto_bwd (A L P : List Op) (t : Option Name) (σ : Store) (hL : L ≠ []
     rw [this, List.take_left]
   rw [h5, h]
 
+/-! ## Forward simulation on the jump-free fragment -/
+
+def loopsNonempty : Stmt → Bool
+  | .seq a b => loopsNonempty a && loopsNonempty b
+  | .block _ b => loopsNonempty b
+  | .ite _ t e => loopsNonempty t && loopsNonempty e
+  | .while _ _ b => loopsNonempty b
+  | .repeat _ b _ => loopsNonempty b
+  | .loop _ b => codeLen b != 0 && loopsNonempty b
+  | _ => true
+
+/-- What the machine must do for a structured outcome: from "about to execute op `start`" reach
+"about to execute op `stop`" with the same store, or halt with the same error, trace and parameters. -/
+def SimGoal (ops : List Op) (start stop : Nat) (σ : Store) : Sig → Store → Prop
+  | .normal, σ' => Reaches ops ⟨(start : Int) - 1, σ⟩ (.running ⟨(stop : Int) - 1, σ'⟩)
+  | .error e, σ' => ∃ σm, Reaches ops ⟨(start : Int) - 1, σ⟩ (.done (.err e) σm) ∧ σm.sess = σ'.sess ∧ σm.log = σ'.log
+  | .leave _, _ => False
+  | .iterate _, _ => False
+
+theorem SimGoal.trans {ops : List Op} {a b c : Nat} {σ σ1 σ' : Store} {sig : Sig}
+    (h1 : SimGoal ops a b σ .normal σ1) (h2 : SimGoal ops b c σ1 sig σ') : SimGoal ops a c σ sig σ' := by
+  cases sig with
+  | normal => exact Reaches.trans h1 h2
+  | error e => obtain ⟨σm, hr, hs, hl⟩ := h2; exact ⟨σm, Reaches.trans h1 hr, hs, hl⟩
+  | leave => exact h2
+  | iterate => exact h2
+
+theorem SimGoal.error_mono {ops : List Op} {a b c : Nat} {σ σ1 σ' : Store} {e : Nat}
+    (h1 : SimGoal ops a b σ (.error e) σ1) (hs : σ1.sess = σ'.sess) (hl : σ1.log = σ'.log) :
+    SimGoal ops a c σ (.error e) σ' := by
+  obtain ⟨σm, hr, hs', hl'⟩ := h1
+  exact ⟨σm, hr, hs'.trans hs, hl'.trans hl⟩
+
+theorem SimGoal.one {ops : List Op} {a b c : Nat} {σ σ1 σ' : Store} {sig : Sig}
+    (h1 : step ops ⟨(a : Int) - 1, σ⟩ = .running ⟨(b : Int) - 1, σ1⟩) (h2 : SimGoal ops b c σ1 sig σ') :
+    SimGoal ops a c σ sig σ' :=
+  SimGoal.trans (sig := sig) (show SimGoal ops a b σ .normal σ1 from Reaches.one h1) h2
+
+theorem SimGoal.stop {ops : List Op} {a c : Nat} {σ σ' : Store} {e : Nat}
+    (h1 : step ops ⟨(a : Int) - 1, σ⟩ = .done (.err e) σ') : SimGoal ops a c σ (.error e) σ' :=
+  ⟨σ', Reaches.halt h1, rfl, rfl⟩
+
+theorem SimGoal.refl {ops : List Op} {a : Nat} {σ : Store} : SimGoal ops a a σ .normal σ := Reaches.refl _
+
+theorem declValue_gms (d : Option Int) : declValue Sem.gms d = some (d.getD 0) := by
+  cases d <;> rfl
+
+
+def SimAt (n : Nat) : Prop :=
+  ∀ s σ sig σ', exec Sem.gms n s σ = some (sig, σ') → jumpFree s = true → hasElseBlock s = false →
+    loopsNonempty s = true → σ.stack ≠ [] →
+    ∀ pre post base, pre.length = base →
+      SimGoal (pre ++ cjf base s ++ post) base (base + codeLen s) σ sig σ'
+
+theorem stack_ne_of_length {σ σ1 : Store} (h : σ1.stack.length = σ.stack.length) (hne : σ.stack ≠ []) :
+    σ1.stack ≠ [] := by
+  intro h0; rw [h0] at h; apply hne; exact List.eq_nil_of_length_eq_zero h.symm
+
+theorem sim_atomic (k : Nat) (s : Stmt) (op : Op) (hc : ∀ base, cjf base s = [op]) (hl : codeLen s = 1)
+    (σ : Store) (sig : Sig) (σ' : Store) (hne : σ.stack ≠ [])
+    (hex : ∀ ops c, match sig with
+      | .normal => execOp ops c op σ = .running ⟨c, σ'⟩
+      | .error e => execOp ops c op σ = .done (.err e) σ'
+      | _ => False)
+    (pre post : List Op) (base : Nat) (hb : pre.length = base) :
+    SimGoal (pre ++ cjf base s ++ post) base (base + codeLen s) σ sig σ' := by
+  subst hb
+  rw [hc, hl]
+  have hget : (pre ++ [op] ++ post)[pre.length]? = some op := by
+    rw [List.append_assoc]; exact getElem?_mid _ _ _
+  have hs := step_at hget σ
+  have hx := hex (pre ++ [op] ++ post) pre.length
+  cases sig with
+  | normal =>
+    simp only at hx
+    rw [hx] at hs
+    have hs' : step (pre ++ [op] ++ post) ⟨(pre.length : Int) - 1, σ⟩ =
+        .running ⟨((pre.length + 1 : Nat) : Int) - 1, σ'⟩ := by
+      rw [hs]; congr 2; omega
+    exact SimGoal.one hs' SimGoal.refl
+  | error e =>
+    simp only at hx
+    rw [hx] at hs
+    exact SimGoal.stop hs
+  | leave => exact hx
+  | iterate => exact hx
+
+
+theorem step_run {ops : List Op} {k : Nat} {op : Op} {σ σ1 : Store} (h : ops[k]? = some op)
+    (hx : execOp ops k op σ = .running ⟨(k : Int), σ1⟩) :
+    step ops ⟨(k : Int) - 1, σ⟩ = .running ⟨((k + 1 : Nat) : Int) - 1, σ1⟩ := by
+  rw [step_at h, hx]; congr 2; omega
+
+theorem step_jump {ops : List Op} {k j : Nat} {op : Op} {σ σ1 : Store} (h : ops[k]? = some op)
+    (hx : execOp ops k op σ = .running ⟨(j : Int) - 1, σ1⟩) :
+    step ops ⟨(k : Int) - 1, σ⟩ = .running ⟨(j : Int) - 1, σ1⟩ := by
+  rw [step_at h, hx]
+
+theorem step_err {ops : List Op} {k : Nat} {op : Op} {σ σ1 : Store} {e : Nat} (h : ops[k]? = some op)
+    (hx : execOp ops k op σ = .done (.err e) σ1) :
+    step ops ⟨(k : Int) - 1, σ⟩ = .done (.err e) σ1 := by
+  rw [step_at h, hx]
+
+theorem sim : ∀ n, SimAt n := by
+  intro n
+  induction n using Nat.strongRecOn with
+  | ind n ih =>
+    intro s σ sig σ' h hj he hn hne pre post base hb
+    cases n with
+    | zero => simp [exec] at h
+    | succ k =>
+      have ihk : SimAt k := ih k (Nat.lt_succ_self k)
+      cases s with
+      | skip =>
+        simp only [exec, Option.some.injEq, Prod.mk.injEq] at h
+        obtain ⟨rfl, rfl⟩ := h
+        simp only [cjf, codeLen, Nat.add_zero]
+        exact SimGoal.refl
+      | declare x d =>
+        simp only [exec, declValue_gms] at h
+        cases hd : σ.declare x (some (d.getD 0)) with
+        | none =>
+          simp only [Store.declare] at hd
+          split at hd
+          · rename_i hs; exact absurd hs hne
+          · cases hd
+        | some σ2 =>
+          simp only [hd, Option.some.injEq, Prod.mk.injEq] at h
+          obtain ⟨rfl, rfl⟩ := h
+          exact sim_atomic k (.declare x d) (.declare x d) (fun _ => rfl) rfl σ .normal σ2 hne
+            (fun ops c => by simp [execOp, hd]) pre post base hb
+      | set x e =>
+        simp only [exec] at h
+        cases hv : evalExpr σ.look e with
+        | none =>
+          simp only [hv, Option.some.injEq, Prod.mk.injEq] at h
+          obtain ⟨rfl, rfl⟩ := h
+          exact sim_atomic k (.set x e) (.set x e) (fun _ => rfl) rfl σ (.error 1105) σ hne
+            (fun ops c => by simp [execOp, hv]) pre post base hb
+        | some v =>
+          simp only [hv] at h
+          cases hs : σ.set x v with
+          | none =>
+            simp only [hs, Option.some.injEq, Prod.mk.injEq] at h
+            obtain ⟨rfl, rfl⟩ := h
+            exact sim_atomic k (.set x e) (.set x e) (fun _ => rfl) rfl σ (.error 1105) σ hne
+              (fun ops c => by simp [execOp, hv, hs]) pre post base hb
+          | some σ2 =>
+            simp only [hs, Option.some.injEq, Prod.mk.injEq] at h
+            obtain ⟨rfl, rfl⟩ := h
+            exact sim_atomic k (.set x e) (.set x e) (fun _ => rfl) rfl σ .normal σ2 hne
+              (fun ops c => by simp [execOp, hv, hs]) pre post base hb
+      | emit e =>
+        simp only [exec] at h
+        cases hv : evalExpr σ.look e with
+        | none =>
+          simp only [hv, Option.some.injEq, Prod.mk.injEq] at h
+          obtain ⟨rfl, rfl⟩ := h
+          exact sim_atomic k (.emit e) (.exec e) (fun _ => rfl) rfl σ (.error 1105) σ hne
+            (fun ops c => by simp [execOp, hv]) pre post base hb
+        | some v =>
+          simp only [hv, Option.some.injEq, Prod.mk.injEq] at h
+          obtain ⟨rfl, rfl⟩ := h
+          exact sim_atomic k (.emit e) (.exec e) (fun _ => rfl) rfl σ .normal (σ.emit v) hne
+            (fun ops c => by simp [execOp, hv]) pre post base hb
+      | caseNotFound =>
+        simp only [exec, Option.some.injEq, Prod.mk.injEq] at h
+        obtain ⟨rfl, rfl⟩ := h
+        exact sim_atomic k .caseNotFound .exception (fun _ => rfl) rfl σ (.error 1339) σ hne
+          (fun ops c => by simp [execOp]) pre post base hb
+      | signal =>
+        simp only [exec, Option.some.injEq, Prod.mk.injEq] at h
+        obtain ⟨rfl, rfl⟩ := h
+        exact sim_atomic k .signal .signal (fun _ => rfl) rfl σ (.error 1644) σ hne
+          (fun ops c => by simp [execOp]) pre post base hb
+      | leave l => simp [jumpFree] at hj
+      | iterate l => simp [jumpFree] at hj
+      | seq a b =>
+        simp only [jumpFree, Bool.and_eq_true] at hj
+        simp only [hasElseBlock, Bool.or_eq_false_iff] at he
+        simp only [loopsNonempty, Bool.and_eq_true] at hn
+        simp only [exec] at h
+        simp only [cjf, codeLen]
+        have e1 : pre ++ (cjf base a ++ cjf (base + codeLen a) b) ++ post
+            = pre ++ cjf base a ++ (cjf (base + codeLen a) b ++ post) := by simp
+        have e2 : pre ++ (cjf base a ++ cjf (base + codeLen a) b) ++ post
+            = (pre ++ cjf base a) ++ cjf (base + codeLen a) b ++ post := by simp
+        have hlen : (pre ++ cjf base a).length = base + codeLen a := by simp [cjf_length, hb]
+        split at h
+        · cases h
+        · rename_i σ1 h1
+          have ga := ihk a σ .normal σ1 h1 hj.1 he.1 hn.1 hne pre (cjf (base + codeLen a) b ++ post) base hb
+          have hne1 := stack_ne_of_length (exec_stack_length _ _ _ _ _ _ h1) hne
+          have gb := ihk b σ1 sig σ' h hj.2 he.2 hn.2 hne1 (pre ++ cjf base a) post (base + codeLen a) hlen
+          rw [← e1] at ga
+          rw [← e2] at gb
+          rw [← Nat.add_assoc]
+          exact SimGoal.trans ga gb
+        · rename_i r hnn h1
+          cases h
+          have ga := ihk a σ sig σ' h1 hj.1 he.1 hn.1 hne pre (cjf (base + codeLen a) b ++ post) base hb
+          rw [← e1] at ga
+          cases sig with
+          | normal => exact absurd rfl (hnn σ')
+          | error e => exact SimGoal.error_mono ga rfl rfl
+          | leave => exact ga
+          | iterate => exact ga
+      | block l b =>
+        have hj' : jumpFree b = true := by simpa [jumpFree] using hj
+        have he' : hasElseBlock b = false := by simpa [hasElseBlock] using he
+        have hn' : loopsNonempty b = true := by simpa [loopsNonempty] using hn
+        subst hb
+        simp only [exec] at h
+        simp only [cjf, codeLen]
+        have e1 : pre ++ (Op.scopeBegin l ((pre.length + 1 : Nat) : Int) :: (cjf (pre.length + 1) b ++
+              [Op.scopeEnd l ((pre.length + 1 + codeLen b + 1 : Nat) : Int)])) ++ post
+            = pre ++ Op.scopeBegin l ((pre.length + 1 : Nat) : Int) :: (cjf (pre.length + 1) b ++
+              [Op.scopeEnd l ((pre.length + 1 + codeLen b + 1 : Nat) : Int)] ++ post) := by simp
+        have e2 : pre ++ (Op.scopeBegin l ((pre.length + 1 : Nat) : Int) :: (cjf (pre.length + 1) b ++
+              [Op.scopeEnd l ((pre.length + 1 + codeLen b + 1 : Nat) : Int)])) ++ post
+            = (pre ++ [Op.scopeBegin l ((pre.length + 1 : Nat) : Int)]) ++ cjf (pre.length + 1) b ++
+              ([Op.scopeEnd l ((pre.length + 1 + codeLen b + 1 : Nat) : Int)] ++ post) := by simp
+        have e3 : pre ++ (Op.scopeBegin l ((pre.length + 1 : Nat) : Int) :: (cjf (pre.length + 1) b ++
+              [Op.scopeEnd l ((pre.length + 1 + codeLen b + 1 : Nat) : Int)])) ++ post
+            = (pre ++ Op.scopeBegin l ((pre.length + 1 : Nat) : Int) :: cjf (pre.length + 1) b) ++
+              Op.scopeEnd l ((pre.length + 1 + codeLen b + 1 : Nat) : Int) :: post := by simp
+        have hl3 : (pre ++ Op.scopeBegin l ((pre.length + 1 : Nat) : Int) :: cjf (pre.length + 1) b).length
+            = pre.length + 1 + codeLen b := by simp [cjf_length]; omega
+        generalize hops : pre ++ (Op.scopeBegin l ((pre.length + 1 : Nat) : Int) :: (cjf (pre.length + 1) b ++
+              [Op.scopeEnd l ((pre.length + 1 + codeLen b + 1 : Nat) : Int)])) ++ post = ops at e1 e2 e3 ⊢
+        have g1 : ops[pre.length]? = some (Op.scopeBegin l ((pre.length + 1 : Nat) : Int)) := by
+          rw [e1]; exact getElem?_mid _ _ _
+        have g3 : ops[pre.length + 1 + codeLen b]? = some (Op.scopeEnd l ((pre.length + 1 + codeLen b + 1 : Nat) : Int)) := by
+          rw [e3, ← hl3]; exact getElem?_mid _ _ _
+        have step1 := step_run (σ := σ) (σ1 := σ.push) g1 rfl
+        split at h
+        · cases h
+        · rename_i sg σ1 h1
+          have gb := ihk b σ.push sg σ1 h1 hj' he' hn' (by simp [Store.push])
+            (pre ++ [Op.scopeBegin l ((pre.length + 1 : Nat) : Int)])
+            ([Op.scopeEnd l ((pre.length + 1 + codeLen b + 1 : Nat) : Int)] ++ post) (pre.length + 1) (by simp)
+          rw [← e2] at gb
+          have hlen1 := exec_stack_length _ _ _ _ _ _ h1
+          simp only [Store.push, List.length_cons] at hlen1
+          cases sg with
+          | normal =>
+            simp only [Option.some.injEq, Prod.mk.injEq] at h
+            obtain ⟨rfl, rfl⟩ := h
+            obtain ⟨x, r, hxr⟩ : ∃ x r, σ1.stack = x :: r := by
+              cases hs : σ1.stack with
+              | nil => rw [hs] at hlen1; simp at hlen1
+              | cons x r => exact ⟨x, r, rfl⟩
+            have hx3 : execOp ops (pre.length + 1 + codeLen b) (Op.scopeEnd l ((pre.length + 1 + codeLen b + 1 : Nat) : Int)) σ1
+                = .running ⟨((pre.length + 1 + codeLen b : Nat) : Int), σ1.pop⟩ := by
+              simp [execOp, popStack, hxr, Store.pop]
+            have step3 := step_run g3 hx3
+            have : pre.length + (codeLen b + 2) = pre.length + 1 + codeLen b + 1 := by omega
+            rw [this]
+            exact SimGoal.one step1 (SimGoal.trans gb (SimGoal.one step3 SimGoal.refl))
+          | error e =>
+            simp only [Option.some.injEq, Prod.mk.injEq] at h
+            obtain ⟨rfl, rfl⟩ := h
+            exact SimGoal.one step1 (SimGoal.error_mono gb rfl rfl)
+          | leave l' => exact gb.elim
+          | iterate l' => exact gb.elim
+      | ite c t e =>
+        simp only [jumpFree, Bool.and_eq_true] at hj
+        simp only [hasElseBlock, Bool.or_eq_false_iff] at he
+        simp only [loopsNonempty, Bool.and_eq_true] at hn
+        subst hb
+        simp only [exec] at h
+        simp only [cjf, codeLen]
+        generalize hIFZ : Op.ifz c ((pre.length + 1 + codeLen t + 1 : Nat) : Int) = IFZ
+        have e1 : pre ++ (IFZ :: (cjf (pre.length + 1) t ++ [Op.goto none ((pre.length + 1 + codeLen t + 1 + codeLen e : Nat) : Int)] ++
+              cjf (pre.length + 1 + codeLen t + 1) e)) ++ post
+            = pre ++ IFZ :: (cjf (pre.length + 1) t ++ [Op.goto none ((pre.length + 1 + codeLen t + 1 + codeLen e : Nat) : Int)] ++
+              cjf (pre.length + 1 + codeLen t + 1) e ++ post) := by simp
+        have e2 : pre ++ (IFZ :: (cjf (pre.length + 1) t ++ [Op.goto none ((pre.length + 1 + codeLen t + 1 + codeLen e : Nat) : Int)] ++
+              cjf (pre.length + 1 + codeLen t + 1) e)) ++ post
+            = (pre ++ [IFZ]) ++ cjf (pre.length + 1) t ++ ([Op.goto none ((pre.length + 1 + codeLen t + 1 + codeLen e : Nat) : Int)] ++
+              cjf (pre.length + 1 + codeLen t + 1) e ++ post) := by simp
+        have e3 : pre ++ (IFZ :: (cjf (pre.length + 1) t ++ [Op.goto none ((pre.length + 1 + codeLen t + 1 + codeLen e : Nat) : Int)] ++
+              cjf (pre.length + 1 + codeLen t + 1) e)) ++ post
+            = (pre ++ IFZ :: cjf (pre.length + 1) t) ++ Op.goto none ((pre.length + 1 + codeLen t + 1 + codeLen e : Nat) : Int) ::
+              (cjf (pre.length + 1 + codeLen t + 1) e ++ post) := by simp
+        have e4 : pre ++ (IFZ :: (cjf (pre.length + 1) t ++ [Op.goto none ((pre.length + 1 + codeLen t + 1 + codeLen e : Nat) : Int)] ++
+              cjf (pre.length + 1 + codeLen t + 1) e)) ++ post
+            = (pre ++ IFZ :: (cjf (pre.length + 1) t ++ [Op.goto none ((pre.length + 1 + codeLen t + 1 + codeLen e : Nat) : Int)])) ++
+              cjf (pre.length + 1 + codeLen t + 1) e ++ post := by simp
+        have hA : (pre ++ IFZ :: cjf (pre.length + 1) t).length = pre.length + 1 + codeLen t := by
+          simp [cjf_length]; omega
+        have hE : (cjf (pre.length + 1 + codeLen t + 1) e).length = codeLen e := cjf_length _ _
+        have hl4 : (pre ++ IFZ :: (cjf (pre.length + 1) t ++ [Op.goto none ((pre.length + 1 + codeLen t + 1 + codeLen e : Nat) : Int)])).length
+            = pre.length + 1 + codeLen t + 1 := by simp [cjf_length]; omega
+        have hgoto : ∀ σx : Store, gotoStep ((pre ++ IFZ :: cjf (pre.length + 1) t) ++
+              Op.goto none ((pre.length + 1 + codeLen t + 1 + codeLen e : Nat) : Int) :: (cjf (pre.length + 1 + codeLen t + 1) e ++ post))
+              (pre.length + 1 + codeLen t) ((pre.length + 1 + codeLen t + 1 + codeLen e : Nat) : Int) σx
+              = .running ⟨((pre.length + 1 + codeLen t + 1 + codeLen e : Nat) : Int) - 1, σx⟩ := by
+          intro σx
+          have hg := goto_fwd (pre ++ IFZ :: cjf (pre.length + 1) t) (cjf (pre.length + 1 + codeLen t + 1) e) post none σx
+            (scan_dropLast e _ _ he.1.1)
+          rw [hA, hE] at hg
+          exact hg
+        rw [← e3] at hgoto
+        generalize hops : pre ++ (IFZ :: (cjf (pre.length + 1) t ++ [Op.goto none ((pre.length + 1 + codeLen t + 1 + codeLen e : Nat) : Int)] ++
+              cjf (pre.length + 1 + codeLen t + 1) e)) ++ post = ops at e1 e2 e3 e4 hgoto ⊢
+        have g1 : ops[pre.length]? = some IFZ := by rw [e1]; exact getElem?_mid _ _ _
+        have g3 : ops[pre.length + 1 + codeLen t]? = some (Op.goto none ((pre.length + 1 + codeLen t + 1 + codeLen e : Nat) : Int)) := by
+          rw [e3, ← hA]; exact getElem?_mid _ _ _
+        have hstop : pre.length + (codeLen t + codeLen e + 2) = pre.length + 1 + codeLen t + 1 + codeLen e := by omega
+        rw [hstop]
+        subst hIFZ
+        cases hv : evalExpr σ.look c with
+        | none =>
+          simp only [hv, Option.some.injEq, Prod.mk.injEq] at h
+          obtain ⟨rfl, rfl⟩ := h
+          exact SimGoal.stop (step_err g1 (by simp [execOp, hv]))
+        | some v =>
+          simp only [hv] at h
+          by_cases hcf : condFalse v = true
+          · simp only [hcf, if_true] at h
+            have step1 : step ops ⟨(pre.length : Int) - 1, σ⟩ = .running ⟨((pre.length + 1 + codeLen t + 1 : Nat) : Int) - 1, σ⟩ :=
+              step_jump g1 (by simp [execOp, hv, hcf])
+            have ge := ihk e σ sig σ' h hj.2 he.2 hn.2 hne _ post (pre.length + 1 + codeLen t + 1) hl4
+            rw [← e4] at ge
+            exact SimGoal.one step1 ge
+          · simp only [hcf, if_false] at h
+            have step1 : step ops ⟨(pre.length : Int) - 1, σ⟩ = .running ⟨((pre.length + 1 : Nat) : Int) - 1, σ⟩ :=
+              step_run g1 (by simp [execOp, hv, hcf])
+            have gt := ihk t σ sig σ' h hj.1 he.1.2 hn.1 hne (pre ++ [Op.ifz c ((pre.length + 1 + codeLen t + 1 : Nat) : Int)])
+              ([Op.goto none ((pre.length + 1 + codeLen t + 1 + codeLen e : Nat) : Int)] ++ cjf (pre.length + 1 + codeLen t + 1) e ++ post)
+              (pre.length + 1) (by simp)
+            rw [← e2] at gt
+            cases sig with
+            | normal =>
+              have step3 : step ops ⟨((pre.length + 1 + codeLen t : Nat) : Int) - 1, σ'⟩
+                  = .running ⟨((pre.length + 1 + codeLen t + 1 + codeLen e : Nat) : Int) - 1, σ'⟩ :=
+                step_jump g3 (by simp only [execOp]; exact hgoto σ')
+              exact SimGoal.one step1 (SimGoal.trans gt (SimGoal.one step3 SimGoal.refl))
+            | error e' => exact SimGoal.one step1 (SimGoal.error_mono gt rfl rfl)
+            | leave l' => exact gt.elim
+            | iterate l' => exact gt.elim
+      | «while» l c b =>
+        have hj' : jumpFree b = true := by simpa [jumpFree] using hj
+        have he' : hasElseBlock b = false := by simpa [hasElseBlock] using he
+        have hn' : loopsNonempty b = true := by simpa [loopsNonempty] using hn
+        subst hb
+        simp only [exec] at h
+        have gwhile := fun σ1 (h1 : exec Sem.gms k (.while l c b) σ1 = some (sig, σ')) (hne1 : σ1.stack ≠ []) =>
+          ihk (.while l c b) σ1 sig σ' h1 hj he hn hne1 pre post pre.length rfl
+        simp only [cjf, codeLen] at gwhile ⊢
+        generalize hIFZ : Op.ifz c ((pre.length + 1 + codeLen b + 1 : Nat) : Int) = IFZ at gwhile ⊢
+        have e1 : pre ++ (IFZ :: (cjf (pre.length + 1) b ++ [Op.goto none (pre.length : Int)])) ++ post
+            = pre ++ IFZ :: (cjf (pre.length + 1) b ++ [Op.goto none (pre.length : Int)] ++ post) := by simp
+        have e2 : pre ++ (IFZ :: (cjf (pre.length + 1) b ++ [Op.goto none (pre.length : Int)])) ++ post
+            = (pre ++ [IFZ]) ++ cjf (pre.length + 1) b ++ ([Op.goto none (pre.length : Int)] ++ post) := by simp
+        have e3 : pre ++ (IFZ :: (cjf (pre.length + 1) b ++ [Op.goto none (pre.length : Int)])) ++ post
+            = pre ++ (IFZ :: cjf (pre.length + 1) b) ++ Op.goto none (pre.length : Int) :: post := by simp
+        have hL : (IFZ :: cjf (pre.length + 1) b).length = 1 + codeLen b := by simp [cjf_length]; omega
+        have hgoto : ∀ σx : Store, gotoStep (pre ++ (IFZ :: cjf (pre.length + 1) b) ++ Op.goto none (pre.length : Int) :: post)
+              (pre.length + (1 + codeLen b)) (pre.length : Int) σx = .running ⟨(pre.length : Int) - 1, σx⟩ := by
+          intro σx
+          have hg := goto_bwd pre (IFZ :: cjf (pre.length + 1) b) post none σx (by simp)
+            (by subst hIFZ
+                simp [scanList_append, scanList, applyScope, (scan_cjf b _ _).2])
+          rw [hL] at hg
+          exact hg
+        have g3 : (pre ++ (IFZ :: cjf (pre.length + 1) b) ++ Op.goto none (pre.length : Int) :: post)[pre.length + (1 + codeLen b)]?
+            = some (Op.goto none (pre.length : Int)) := by
+          have := getElem?_mid (pre ++ (IFZ :: cjf (pre.length + 1) b)) post (Op.goto none (pre.length : Int))
+          rw [List.length_append, hL] at this
+          exact this
+        rw [← e3] at hgoto g3
+        generalize hops : pre ++ (IFZ :: (cjf (pre.length + 1) b ++ [Op.goto none (pre.length : Int)])) ++ post = ops
+          at e1 e2 e3 hgoto g3 gwhile ⊢
+        have g1 : ops[pre.length]? = some IFZ := by rw [e1]; exact getElem?_mid _ _ _
+        subst hIFZ
+        cases hv : evalExpr σ.look c with
+        | none =>
+          simp only [hv, Option.some.injEq, Prod.mk.injEq] at h
+          obtain ⟨rfl, rfl⟩ := h
+          exact SimGoal.stop (step_err g1 (by simp [execOp, hv]))
+        | some v =>
+          simp only [hv] at h
+          by_cases hcf : condFalse v = true
+          · simp only [hcf, if_true, Option.some.injEq, Prod.mk.injEq] at h
+            obtain ⟨rfl, rfl⟩ := h
+            have step1 : step ops ⟨(pre.length : Int) - 1, σ⟩ = .running ⟨((pre.length + 1 + codeLen b + 1 : Nat) : Int) - 1, σ⟩ :=
+              step_jump g1 (by simp [execOp, hv, hcf])
+            have : pre.length + (codeLen b + 2) = pre.length + 1 + codeLen b + 1 := by omega
+            rw [this]
+            exact SimGoal.one step1 SimGoal.refl
+          · have hcf' : condFalse v = false := by simpa using hcf
+            simp only [hcf', Bool.false_eq_true, if_false] at h
+            have step1 : step ops ⟨(pre.length : Int) - 1, σ⟩ = .running ⟨((pre.length + 1 : Nat) : Int) - 1, σ⟩ :=
+              step_run g1 (by simp [execOp, hv, hcf])
+            have gbody := fun sg σ1 (h1 : exec Sem.gms k b σ = some (sg, σ1)) =>
+              ihk b σ sg σ1 h1 hj' he' hn' hne (pre ++ [Op.ifz c ((pre.length + 1 + codeLen b + 1 : Nat) : Int)])
+                ([Op.goto none (pre.length : Int)] ++ post) (pre.length + 1) (by simp)
+            rw [← e2] at gbody
+            split at h
+            · cases h
+            · rename_i σ1 h1
+              have gb := gbody _ _ h1
+              have hne1 := stack_ne_of_length (exec_stack_length _ _ _ _ _ _ h1) hne
+              have step3 : step ops ⟨((pre.length + 1 + codeLen b : Nat) : Int) - 1, σ1⟩ = .running ⟨(pre.length : Int) - 1, σ1⟩ := by
+                have : pre.length + 1 + codeLen b = pre.length + (1 + codeLen b) := by omega
+                rw [this]
+                exact step_jump g3 (by simp only [execOp]; exact hgoto σ1)
+              exact SimGoal.one step1 (SimGoal.trans gb (SimGoal.one step3 (gwhile σ1 h hne1)))
+            · rename_i l' σ1 h1; exact (gbody _ _ h1).elim
+            · rename_i l' σ1 h1; exact (gbody _ _ h1).elim
+            · rename_i e' σ1 h1
+              simp only [Option.some.injEq, Prod.mk.injEq] at h
+              obtain ⟨rfl, rfl⟩ := h
+              exact SimGoal.one step1 (SimGoal.error_mono (gbody _ _ h1) rfl rfl)
+      | «repeat» l b c =>
+        have hj' : jumpFree b = true := by simpa [jumpFree] using hj
+        have he' : hasElseBlock b = false := by simpa [hasElseBlock] using he
+        have hn' : loopsNonempty b = true := by simpa [loopsNonempty] using hn
+        subst hb
+        simp only [cjf, codeLen]
+        generalize hIFZ : Op.ifz (Expr.not c) ((pre.length + codeLen b + 1 + codeLen b + 1 : Nat) : Int) = IFZ
+        have hA : (pre ++ cjf pre.length b).length = pre.length + codeLen b := by simp [cjf_length]
+        have hL : (IFZ :: cjf (pre.length + codeLen b + 1) b).length = 1 + codeLen b := by simp [cjf_length]; omega
+        have hl2 : (pre ++ cjf pre.length b ++ [IFZ]).length = pre.length + codeLen b + 1 := by simp [cjf_length]; omega
+        have eOnce : pre ++ (cjf pre.length b ++ (IFZ :: (cjf (pre.length + codeLen b + 1) b ++
+              [Op.goto none ((pre.length + codeLen b : Nat) : Int)]))) ++ post
+            = pre ++ cjf pre.length b ++ ((IFZ :: (cjf (pre.length + codeLen b + 1) b ++
+              [Op.goto none ((pre.length + codeLen b : Nat) : Int)])) ++ post) := by simp
+        have eIfz : pre ++ (cjf pre.length b ++ (IFZ :: (cjf (pre.length + codeLen b + 1) b ++
+              [Op.goto none ((pre.length + codeLen b : Nat) : Int)]))) ++ post
+            = (pre ++ cjf pre.length b) ++ IFZ :: (cjf (pre.length + codeLen b + 1) b ++
+              [Op.goto none ((pre.length + codeLen b : Nat) : Int)] ++ post) := by simp
+        have eB2 : pre ++ (cjf pre.length b ++ (IFZ :: (cjf (pre.length + codeLen b + 1) b ++
+              [Op.goto none ((pre.length + codeLen b : Nat) : Int)]))) ++ post
+            = (pre ++ cjf pre.length b ++ [IFZ]) ++ cjf (pre.length + codeLen b + 1) b ++
+              ([Op.goto none ((pre.length + codeLen b : Nat) : Int)] ++ post) := by simp
+        have eGoto : pre ++ (cjf pre.length b ++ (IFZ :: (cjf (pre.length + codeLen b + 1) b ++
+              [Op.goto none ((pre.length + codeLen b : Nat) : Int)]))) ++ post
+            = (pre ++ cjf pre.length b) ++ (IFZ :: cjf (pre.length + codeLen b + 1) b) ++
+              Op.goto none ((pre.length + codeLen b : Nat) : Int) :: post := by simp
+        have hgoto : ∀ σx : Store, gotoStep ((pre ++ cjf pre.length b) ++ (IFZ :: cjf (pre.length + codeLen b + 1) b) ++
+              Op.goto none ((pre.length + codeLen b : Nat) : Int) :: post)
+              (pre.length + codeLen b + (1 + codeLen b)) ((pre.length + codeLen b : Nat) : Int) σx
+              = .running ⟨((pre.length + codeLen b : Nat) : Int) - 1, σx⟩ := by
+          intro σx
+          have hg := goto_bwd (pre ++ cjf pre.length b) (IFZ :: cjf (pre.length + codeLen b + 1) b) post none σx (by simp)
+            (by subst hIFZ
+                simp [scanList_append, scanList, applyScope, (scan_cjf b _ _).2])
+          rw [hL, hA] at hg
+          exact hg
+        have g3 : ((pre ++ cjf pre.length b) ++ (IFZ :: cjf (pre.length + codeLen b + 1) b) ++
+              Op.goto none ((pre.length + codeLen b : Nat) : Int) :: post)[pre.length + codeLen b + (1 + codeLen b)]?
+            = some (Op.goto none ((pre.length + codeLen b : Nat) : Int)) := by
+          have := getElem?_mid ((pre ++ cjf pre.length b) ++ (IFZ :: cjf (pre.length + codeLen b + 1) b)) post
+            (Op.goto none ((pre.length + codeLen b : Nat) : Int))
+          rw [List.length_append, hL, hA] at this
+          exact this
+        rw [← eGoto] at hgoto g3
+        generalize hops : pre ++ (cjf pre.length b ++ (IFZ :: (cjf (pre.length + codeLen b + 1) b ++
+              [Op.goto none ((pre.length + codeLen b : Nat) : Int)]))) ++ post = ops
+          at eOnce eIfz eB2 eGoto hgoto g3 ⊢
+        have g2 : ops[pre.length + codeLen b]? = some IFZ := by rw [eIfz, ← hA]; exact getElem?_mid _ _ _
+        have hstop : pre.length + (codeLen b + codeLen b + 2) = pre.length + codeLen b + 1 + codeLen b + 1 := by omega
+        rw [hstop]
+        subst hIFZ
+        -- the UNTIL test, from "about to execute the If at loopStart"
+        have checkPart : ∀ (σ1 : Store) (sg : Sig) (σ2 : Store) (again : Option (Sig × Store)),
+            repeatCheck Sem.gms (evalExpr σ1.look c) σ1 again = some (sg, σ2) →
+            (again = some (sg, σ2) → SimGoal ops (pre.length + codeLen b + 1) (pre.length + codeLen b + 1 + codeLen b + 1) σ1 sg σ2) →
+            SimGoal ops (pre.length + codeLen b) (pre.length + codeLen b + 1 + codeLen b + 1) σ1 sg σ2 := by
+          intro σ1 sg σ2 again hc hag
+          unfold repeatCheck at hc
+          cases hv : evalExpr σ1.look c with
+          | none =>
+            simp only [hv, Option.some.injEq, Prod.mk.injEq] at hc
+            obtain ⟨rfl, rfl⟩ := hc
+            exact SimGoal.stop (step_err g2 (by simp [execOp, evalExpr, hv]))
+          | some v =>
+            cases v with
+            | none =>
+              simp only [hv, Sem.gms, if_true, Option.some.injEq, Prod.mk.injEq] at hc
+              obtain ⟨rfl, rfl⟩ := hc
+              exact SimGoal.one (step_jump g2 (by simp [execOp, evalExpr, hv, not3, condFalse])) SimGoal.refl
+            | some x =>
+              simp only [hv] at hc
+              by_cases hx : x = 0
+              · simp only [hx, if_true] at hc
+                subst hx
+                have step2 : step ops ⟨((pre.length + codeLen b : Nat) : Int) - 1, σ1⟩
+                    = .running ⟨((pre.length + codeLen b + 1 : Nat) : Int) - 1, σ1⟩ :=
+                  step_run g2 (by simp [execOp, evalExpr, hv, not3, b2v, condFalse, isZero])
+                exact SimGoal.one step2 (hag hc)
+              · simp only [hx, if_false, Option.some.injEq, Prod.mk.injEq] at hc
+                obtain ⟨rfl, rfl⟩ := hc
+                exact SimGoal.one (step_jump g2 (by simp [execOp, evalExpr, hv, not3, b2v, hx, condFalse, isZero])) SimGoal.refl
+        -- the loop part: from "about to execute the second body copy"
+        have loopPart : ∀ j, j ≤ k → ∀ (σ1 : Store) (sg : Sig) (σ2 : Store),
+            exec Sem.gms j (.repeat l b c) σ1 = some (sg, σ2) → σ1.stack ≠ [] →
+            SimGoal ops (pre.length + codeLen b + 1) (pre.length + codeLen b + 1 + codeLen b + 1) σ1 sg σ2 := by
+          intro j
+          induction j with
+          | zero => intro _ σ1 sg σ2 hx; simp [exec] at hx
+          | succ j ihj =>
+            intro hjk σ1 sg σ2 hx hne1
+            have ihb : SimAt j := ih j (by omega)
+            simp only [exec] at hx
+            split at hx
+            · cases hx
+            · rename_i sb σb hb1
+              have gb2 := ihb b σ1 sb σb hb1 hj' he' hn' hne1 _ ([Op.goto none ((pre.length + codeLen b : Nat) : Int)] ++ post)
+                (pre.length + codeLen b + 1) hl2
+              rw [← eB2] at gb2
+              have hneb := stack_ne_of_length (exec_stack_length _ _ _ _ _ _ hb1) hne1
+              cases sb with
+              | normal =>
+                simp only at hx
+                have step3 : step ops ⟨((pre.length + codeLen b + 1 + codeLen b : Nat) : Int) - 1, σb⟩
+                    = .running ⟨((pre.length + codeLen b : Nat) : Int) - 1, σb⟩ := by
+                  have : pre.length + codeLen b + 1 + codeLen b = pre.length + codeLen b + (1 + codeLen b) := by omega
+                  rw [this]
+                  exact step_jump g3 (by simp only [execOp]; exact hgoto σb)
+                exact SimGoal.trans gb2 (SimGoal.one step3
+                  (checkPart σb sg σ2 _ hx (fun hag => ihj (by omega) σb sg σ2 hag hneb)))
+              | error e' =>
+                simp only [Option.some.injEq, Prod.mk.injEq] at hx
+                obtain ⟨rfl, rfl⟩ := hx
+                exact SimGoal.error_mono gb2 rfl rfl
+              | leave l' => exact gb2.elim
+              | iterate l' => exact gb2.elim
+        simp only [exec] at h
+        split at h
+        · cases h
+        · rename_i sb σb hb1
+          have gonce := ihk b σ sb σb hb1 hj' he' hn' hne pre
+            ((Op.ifz (Expr.not c) ((pre.length + codeLen b + 1 + codeLen b + 1 : Nat) : Int) :: (cjf (pre.length + codeLen b + 1) b ++
+              [Op.goto none ((pre.length + codeLen b : Nat) : Int)])) ++ post) pre.length rfl
+          rw [← eOnce] at gonce
+          have hneb := stack_ne_of_length (exec_stack_length _ _ _ _ _ _ hb1) hne
+          cases sb with
+          | normal =>
+            simp only at h
+            exact SimGoal.trans gonce (checkPart σb sig σ' _ h (fun hag => loopPart k (Nat.le_refl k) σb sig σ' hag hneb))
+          | error e' =>
+            simp only [Option.some.injEq, Prod.mk.injEq] at h
+            obtain ⟨rfl, rfl⟩ := h
+            exact SimGoal.error_mono gonce rfl rfl
+          | leave l' => exact gonce.elim
+          | iterate l' => exact gonce.elim
+      | loop l b =>
+        have hj' : jumpFree b = true := by simpa [jumpFree] using hj
+        have he' : hasElseBlock b = false := by simpa [hasElseBlock] using he
+        have hn' : codeLen b ≠ 0 ∧ loopsNonempty b = true := by simpa [loopsNonempty] using hn
+        subst hb
+        simp only [exec] at h
+        have gloop := fun σ1 (h1 : exec Sem.gms k (.loop l b) σ1 = some (sig, σ')) (hne1 : σ1.stack ≠ []) =>
+          ihk (.loop l b) σ1 sig σ' h1 hj he hn hne1 pre post pre.length rfl
+        simp only [cjf, codeLen] at gloop ⊢
+        have e2 : pre ++ (cjf pre.length b ++ [Op.goto l (pre.length : Int)]) ++ post
+            = pre ++ cjf pre.length b ++ ([Op.goto l (pre.length : Int)] ++ post) := by simp
+        have e3 : pre ++ (cjf pre.length b ++ [Op.goto l (pre.length : Int)]) ++ post
+            = pre ++ cjf pre.length b ++ Op.goto l (pre.length : Int) :: post := by simp
+        have hL : (cjf pre.length b).length = codeLen b := cjf_length _ _
+        have hLne : cjf pre.length b ≠ [] := by
+          intro h0; apply hn'.1; rw [← hL, h0]; rfl
+        have hgoto : ∀ σx : Store, gotoStep (pre ++ cjf pre.length b ++ Op.goto l (pre.length : Int) :: post)
+              (pre.length + codeLen b) (pre.length : Int) σx = .running ⟨(pre.length : Int) - 1, σx⟩ := by
+          intro σx
+          have hg := goto_bwd pre (cjf pre.length b) post l σx hLne
+            (by simp [scanList_append, scanList, applyScope, (scan_cjf b _ _).2])
+          rw [hL] at hg
+          exact hg
+        have g3 : (pre ++ cjf pre.length b ++ Op.goto l (pre.length : Int) :: post)[pre.length + codeLen b]?
+            = some (Op.goto l (pre.length : Int)) := by
+          have := getElem?_mid (pre ++ cjf pre.length b) post (Op.goto l (pre.length : Int))
+          rw [List.length_append, hL] at this
+          exact this
+        rw [← e3] at hgoto g3
+        generalize hops : pre ++ (cjf pre.length b ++ [Op.goto l (pre.length : Int)]) ++ post = ops
+          at e2 e3 hgoto g3 gloop ⊢
+        have gbody := fun sg σ1 (h1 : exec Sem.gms k b σ = some (sg, σ1)) =>
+          ihk b σ sg σ1 h1 hj' he' hn'.2 hne pre ([Op.goto l (pre.length : Int)] ++ post) pre.length rfl
+        rw [← e2] at gbody
+        split at h
+        · cases h
+        · rename_i σ1 h1
+          have gb := gbody _ _ h1
+          have hne1 := stack_ne_of_length (exec_stack_length _ _ _ _ _ _ h1) hne
+          have step3 : step ops ⟨((pre.length + codeLen b : Nat) : Int) - 1, σ1⟩ = .running ⟨(pre.length : Int) - 1, σ1⟩ :=
+            step_jump g3 (by simp only [execOp]; exact hgoto σ1)
+          exact SimGoal.trans gb (SimGoal.one step3 (gloop σ1 h hne1))
+        · rename_i l' σ1 h1; exact (gbody _ _ h1).elim
+        · rename_i l' σ1 h1; exact (gbody _ _ h1).elim
+        · rename_i e' σ1 h1
+          simp only [Option.some.injEq, Prod.mk.injEq] at h
+          obtain ⟨rfl, rfl⟩ := h
+          exact SimGoal.error_mono (gbody _ _ h1) rfl rfl
+
 end Gms.ProcLang
